@@ -802,6 +802,7 @@ func parseBinOps(expr string, n *promParser.BinaryExpr) (src []Source) {
 					Src: rs,
 				})
 			}
+			s.AlwaysReturns = joinAlwaysReturns(s, rhs)
 			s.IsConditional, s.IsReturnBool = checkConditions(s, n.Op, n.ReturnBool)
 			src = append(src, s)
 		}
@@ -832,6 +833,7 @@ func parseBinOps(expr string, n *promParser.BinaryExpr) (src []Source) {
 					Src: ls,
 				})
 			}
+			s.AlwaysReturns = joinAlwaysReturns(s, lhs)
 			s.IsConditional, s.IsReturnBool = checkConditions(s, n.Op, n.ReturnBool)
 			src = append(src, s)
 		}
@@ -859,6 +861,7 @@ func parseBinOps(expr string, n *promParser.BinaryExpr) (src []Source) {
 					Src: rs,
 				})
 			}
+			s.AlwaysReturns = joinAlwaysReturns(s, rhs)
 			s.IsConditional, s.IsReturnBool = checkConditions(s, n.Op, n.ReturnBool)
 			src = append(src, s)
 		}
@@ -910,6 +913,10 @@ func parseBinOps(expr string, n *promParser.BinaryExpr) (src []Source) {
 			if n.Op == promParser.LAND && rhsConditional {
 				s.IsConditional = true
 			}
+			if n.Op == promParser.LUNLESS {
+				// anything on the right hand side might suppress it
+				s.AlwaysReturns = false
+			}
 			src = append(src, s)
 		}
 		if n.Op == promParser.LOR {
@@ -928,6 +935,19 @@ func parseBinOps(expr string, n *promParser.BinaryExpr) (src []Source) {
 		}
 	}
 	return src
+}
+
+// A vector matching operation returns something only if both sides do.
+func joinAlwaysReturns(s Source, others []Source) bool {
+	if !s.AlwaysReturns {
+		return false
+	}
+	for _, os := range others {
+		if os.AlwaysReturns && !os.IsConditional {
+			return true
+		}
+	}
+	return false
 }
 
 func checkConditions(s Source, op promParser.ItemType, isBool bool) (isConditional, isReturnBool bool) {
